@@ -84,6 +84,19 @@ class Ticket:
     def text(self):
         return (self.body or b'').decode('utf-8')
 
+    def payload_text(self):
+        """The body as a client reads it: the declared Content-Encoding
+        undone, then UTF-8."""
+        import gzip
+        import zlib
+        body = self.body or b''
+        ce = self.header('Content-Encoding')
+        if ce == 'gzip':
+            body = gzip.decompress(body)
+        elif ce == 'deflate':
+            body = zlib.decompress(body)
+        return body.decode('utf-8')
+
     def __repr__(self):
         return '<Ticket %s %s done=%s status=%s>' % (
             self.kind, self.info, self.done, self.status)
@@ -258,7 +271,9 @@ class SimBase:
     def poll(self, h, extra_q=None, headers=None):
         q = {'transport': 'polling', 'EIO': '4', 'sid': h.sid}
         q.update(extra_q or {})
-        return self.request('GET', q, headers or {})
+        hd = dict(getattr(self, 'poll_headers', None) or {})
+        hd.update(headers or {})
+        return self.request('GET', q, hd)
 
     def post(self, h, body, declared=None, extra_q=None, headers=None):
         q = {'transport': 'polling', 'EIO': '4', 'sid': h.sid}
